@@ -558,6 +558,9 @@ class Interp:
             fields = {}
             for i, part in enumerate(self.split_top(m.group(2))):
                 fields[i] = Cell(self.operand(fr, part.split(": ", 1)[1], path))
+            ev = self.enum_variant(m.group(1))
+            if ev is not None:
+                return EnumV(ev[1], [fields[i] for i in sorted(fields)])      # struct-like enum variant
             return Struct(fields)
         # tuple struct ctor: Snapshot(move _4)
         m = re.match(r"^([\w:<>]+)\((.*)\)$", rhs)
